@@ -46,3 +46,22 @@ benign("c07-vec-new-instead-of-clear", "C07", SCR, "        self.literals_buffer
 benign("c07-rename-param", "C07", SCR,
        "    pub fn reset(&mut self, window_size: usize) {\n        self.offset_hist = [1, 4, 8];\n        self.literals_buffer.clear();\n        self.sequences.clear();\n        self.block_content_buffer.clear();\n\n        self.buffer.reset(window_size);",
        "    pub fn reset(&mut self, ws: usize) {\n        // comment shifting lines\n\n        self.offset_hist = [1, 4, 8];\n        self.literals_buffer.clear();\n        self.sequences.clear();\n        self.block_content_buffer.clear();\n\n        self.buffer.reset(ws);")
+
+# ---- C09 -------------------------------------------------------------------------------
+DICT = "ruzstd/src/decoding/dictionary.rs"
+mutant("c09-be-offset", "C09", "C09.order.parse", DICT, "let offset2 = u32::from_le_bytes(offset2);", "let offset2 = u32::from_be_bytes(offset2);")
+mutant("c09-hist-slot-swap", "C09", "C09.order.parse", DICT, "new_dict.offset_hist[1] = offset2;", "new_dict.offset_hist[1] = offset1;")
+mutant("c09-table-order", "C09", "C09.order.parse", DICT,
+       "let of_size = new_dict.fse.offsets.build_decoder(", "let of_size = new_dict.fse.match_lengths.build_decoder(",
+       more=[{"file": DICT, "find": "let ml_size = new_dict.fse.match_lengths.build_decoder(", "replace": "let ml_size = new_dict.fse.offsets.build_decoder(", "count": 1}])
+mutant("c09-wrong-maxlog", "C09", "C09.order.parse", DICT, "crate::decoding::sequence_section_decoder::OF_MAX_LOG", "crate::decoding::sequence_section_decoder::LL_MAX_LOG")
+mutant("c09-len-guard-weakened", "C09", "C09.dom.parse-bounds", DICT, "if raw_tables.len() < 12 {", "if raw_tables.len() < 11 {")
+mutant("c09-stale-content", "C09", "C09.cover.init", SCR, "        self.buffer.dict_content.clear();\n", "")
+mutant("c09-no-offset-hist-init", "C09", "C09.cover.init", SCR, "        self.offset_hist = dict.offset_hist;\n", "")
+mutant("c09-missing-dict-unwrap", "C09", "C09.dom.missing", FD,
+       "            let dict = self\n                .dicts\n                .get(&dict_id)\n                .ok_or(err::DictNotProvided { dict_id })?;\n            state.decoder_scratch.init_from_dict(dict);\n            state.using_dict = Some(dict_id);\n        }",
+       "            if let Some(dict) = self.dicts.get(&dict_id) {\n                state.decoder_scratch.init_from_dict(dict);\n                state.using_dict = Some(dict_id);\n            }\n        }")
+mutant("c09-reach-off-by-one", "C09", "C09.dom.reach", DB, "if bytes_from_dict > self.dict_content.len() {", "if bytes_from_dict > self.dict_content.len() + 1 {")
+mutant("c09-window-test-dropped", "C09", "C09.dom.reach", DB, "if self.total_output_counter <= self.window_size as u64 {", "if self.total_output_counter <= u64::MAX {")
+benign("c09-rename-locals", "C09", DICT, "raw_tables", "rest", count=24)
+benign("c09-flip-compare", "C09", DICT, "if raw.len() < 8 {", "if 8 > raw.len() {")
